@@ -236,3 +236,48 @@ package avfs
 //@   requires vfs != nil
 //@   ensures[C04,C13] fresh(r0) && r0.path == path && r0.vfs == vfs && r0.end == r0.volumeNameLen && 0 <= r0.volumeNameLen && r0.volumeNameLen <= len(path) && r0.pathSeparator == vfs.PathSeparator()
 //@   modifies nothing
+
+// ---- vfs_aferoutils.go, vfs.go: existence helpers and WalkDir (C14) ----------------------------
+
+//@ func Exists
+//@   requires vfs != nil
+//@   ensures[C14] ncalls(vfs.Stat) == 1 && recv(vfs.Stat) == vfs && arg(vfs.Stat, 0) == path
+//@   ensures[C14] !failed(vfs.Stat) ==> r0 && r1 == nil
+//@   ensures[C14] failed(vfs.Stat) && errorsIs(result(vfs.Stat, 1), fs.ErrNotExist) ==> !r0 && r1 == nil
+//@   ensures[C14] failed(vfs.Stat) && !errorsIs(result(vfs.Stat, 1), fs.ErrNotExist) ==> !r0 && r1 == result(vfs.Stat, 1)
+
+//@ func DirExists
+//@   requires vfs != nil
+//@   ensures[C14] ncalls(vfs.Stat) == 1 && recv(vfs.Stat) == vfs && arg(vfs.Stat, 0) == path
+//@   ensures[C14] !failed(vfs.Stat) ==> r1 == nil && r0 == result(vfs.Stat, 0).IsDir()
+//@   ensures[C14] failed(vfs.Stat) && errorsIs(result(vfs.Stat, 1), fs.ErrNotExist) ==> !r0 && r1 == nil
+//@   ensures[C14] failed(vfs.Stat) && !errorsIs(result(vfs.Stat, 1), fs.ErrNotExist) ==> !r0 && r1 == result(vfs.Stat, 1)
+
+//@ func IsDir
+//@   requires vfs != nil
+//@   ensures[C14] ncalls(vfs.Stat) == 1 && recv(vfs.Stat) == vfs && arg(vfs.Stat, 0) == path
+//@   ensures[C14] !failed(vfs.Stat) ==> r1 == nil && r0 == result(vfs.Stat, 0).IsDir()
+//@   ensures[C14] failed(vfs.Stat) ==> !r0 && r1 == result(vfs.Stat, 1)
+
+//@ func IsEmpty
+//@   requires vfs != nil
+//@   ensures[C14] called(f.ReadDir) && !failed(f.ReadDir) ==> r1 == nil && r0 == (len(result(f.ReadDir, 0)) == 0) && arg(f.ReadDir, 0) == -1
+//@   ensures[C14] failed(f.ReadDir) ==> !r0 && r1 == result(f.ReadDir, 1)
+//@   ensures[C14] failed(vfs.OpenFile) ==> !r0 && r1 == result(vfs.OpenFile, 1)
+//@   ensures[C14] called(vfs.OpenFile) ==> arg(vfs.OpenFile, 0) == path && arg(vfs.OpenFile, 1) == os.O_RDONLY
+//@   ensures[C14] called(vfs.OpenFile) && !failed(vfs.OpenFile) ==> called(f.Close)
+
+//@ func WalkDir
+//@   requires vfs != nil
+//@   ensures[C14] ncalls(vfs.Lstat) == 1 && arg(vfs.Lstat, 0) == root
+//@   ensures[C14] r0 != filepath.SkipDir
+//@   ensures[C14] r0 != filepath.SkipAll
+//@   ensures[C14] failed(vfs.Lstat) ==> ncalls(fn) == 1 && arg(fn, 0) == root && arg(fn, 1) == nil && arg(fn, 2) == result(vfs.Lstat, 1) && !called(walkDir)
+//@   ensures[C14] !failed(vfs.Lstat) ==> ncalls(walkDir) == 1 && arg(walkDir, 1) == root && !called(fn)
+//@   ensures[C14] called(walkDir) && result(walkDir) != filepath.SkipDir && result(walkDir) != filepath.SkipAll ==> r0 == result(walkDir)
+
+//@ func walkDir
+//@   event
+//@   requires vfs != nil && d != nil
+//@   ensures[C14] firstcall(walkDirFn)
+//@   loop 0 invariant true
